@@ -370,7 +370,9 @@ func genSys(e *c14env, seed uint64, internal bool) *sysCase {
 	k.khOpt, k.cfgOpt = 0, 0
 	if k.kh != "" {
 		k.khOpt, k.khNamed = 1, k.kh
-		if r2.Chance(1, 8) {
+		if r2.Chance(1, 5) {
+			k.khOpt = 5 // existing path plus a same-named decoy under $HOME
+		} else if r2.Chance(1, 8) {
 			k.khOpt, k.khNamed = 2, filepath.Join(e.dir, "no-such-known-hosts")
 		}
 	} else if r2.Chance(1, 3) {
@@ -378,7 +380,9 @@ func genSys(e *c14env, seed uint64, internal bool) *sysCase {
 	}
 	if k.cfg != "" {
 		k.cfgOpt, k.cfgNamed = 1, k.cfg
-		if r2.Chance(1, 8) {
+		if r2.Chance(1, 5) {
+			k.cfgOpt = 5
+		} else if r2.Chance(1, 8) {
 			k.cfgOpt, k.cfgNamed = 2, filepath.Join(e.dir, "no-such-config")
 		}
 	} else if r2.Chance(1, 3) {
@@ -425,13 +429,13 @@ func (k *sysCase) options(e *c14env) []util.Option {
 		opts = append(opts, options.WithAuthNoStrictKey())
 	}
 	switch k.khOpt {
-	case 1, 2:
+	case 1, 2, 5:
 		opts = append(opts, options.WithSSHKnownHostsFile(k.khNamed))
 	case 3, 4:
 		opts = append(opts, options.WithSSHKnownHostsFileSystem())
 	}
 	switch k.cfgOpt {
-	case 1, 2:
+	case 1, 2, 5:
 		opts = append(opts, options.WithSSHConfigFile(k.cfgNamed))
 	case 3, 4:
 		opts = append(opts, options.WithSSHConfigFileSystem())
@@ -460,6 +464,9 @@ func (k *sysCase) options(e *c14env) []util.Option {
 
 func resolveRq(opt int, named, home, etc string, etcHas bool) string {
 	switch opt {
+	case 5:
+		// util.ResolveFilePath on an existing path that also exists re-rooted under $HOME
+		return fmt.Sprintf("c14 resolvepath %s 1 1 %s", hexs(named), hexs(filepath.Dir(filepath.Dir(home))))
 	case 1:
 		return fmt.Sprintf("c14 resolve path %s 1 0 0 - -", hexs(named))
 	case 2:
@@ -491,6 +498,17 @@ func (k *sysCase) run(e *c14env) (o sysObs) {
 		os.Remove(p)
 		if f.opt == 3 {
 			os.WriteFile(p, nil, 0o600)
+		}
+	}
+	for _, f := range []struct {
+		opt   int
+		named string
+	}{{k.khOpt, k.khNamed}, {k.cfgOpt, k.cfgNamed}} {
+		if f.opt == 5 {
+			decoy := e.home + "/" + f.named
+			os.MkdirAll(filepath.Dir(decoy), 0o700)
+			os.WriteFile(decoy, nil, 0o600)
+			defer os.Remove(decoy)
 		}
 	}
 	var tr *transport.Transport
@@ -990,6 +1008,10 @@ type stdCase struct {
 	keyKind int // 0 none, 1 good, 2 good (odd path), 3 bad file, 4 missing, 5 passphrase-protected (+ passphrase configured)
 	host    string   // "127.0.0.1" | "localhost" | "::1"
 	khMode  int      // how the known-hosts file is named: 0 WithSSHKnownHostsFile(existing path), 1 …(path that does not exist), 2 WithSSHKnownHostsFileSystem() with the content in ~/.ssh/known_hosts
+	// khMode 3: the path exists as given and/or re-rooted under $HOME, with different content (decoy)
+	khForm   int    // 0 absolute, 1 relative to the working directory, 2 "~/…"
+	khWhere  int    // 0 both places, 1 only as given, 2 only under $HOME
+	khSwap   bool   // the case's known-hosts kind goes to the $HOME copy, its opposite to the as-given one
 	ciphers []string // WithStandardTransportExtraCiphers
 	kexs    []string // WithStandardTransportExtraKexs
 	drvOpen bool     // open through Driver.Open / GetPrompt / Driver.Close instead of the bare transport
@@ -1070,7 +1092,8 @@ func genStd(seed uint64, cell int) *stdCase {
 	// further dimensions draw from their own stream so that the older ones keep their values per seed
 	r2 := vlib.NewRng(seed ^ 0xd1f)
 	k.host = r2.Pick([]string{"127.0.0.1", "127.0.0.1", "localhost", "::1", "localhost", c14SecondName()})
-	k.khMode = pickInt(r2, 0, 0, 0, 0, 2, 2, 1)
+	k.khMode = pickInt(r2, 0, 0, 0, 0, 2, 2, 1, 3, 3, 3)
+	k.khForm, k.khWhere, k.khSwap = r2.Intn(3), pickInt(r2, 0, 0, 0, 1, 2), r2.Bool()
 	if r2.Chance(1, 4) {
 		k.ciphers = pickList(r2, [][]string{{"aes128-ctr"}, {"aes256-gcm@openssh.com", "aes128-ctr"}, {"chacha20-poly1305@openssh.com"}})
 	}
@@ -1100,6 +1123,9 @@ func genStd(seed uint64, cell int) *stdCase {
 		if k.keyKind == 5 {
 			k.keyKind = 1
 		}
+	}
+	if k.kh == khAbsent && k.khMode == 3 {
+		k.khMode = 0
 	}
 	if k.kh == khAbsent && k.khMode == 0 {
 		k.khMode = pickInt(r2, 0, 0, 2) // "not given": no option at all, or the system variant finding nothing
@@ -1201,6 +1227,7 @@ type stdRun struct {
 	o       srvObs
 	keyPath string
 	// how the known-hosts file was named, for the model's resolveFileOpt
+	kindOf   map[string]khKind // khMode 3: what each candidate path holds; the model's resolution picks the effective one
 	resolve  string // "c14 resolve …" request
 	leanWith func(khPath string) string
 	// what the public accessors said right after NewDriver
@@ -1240,6 +1267,11 @@ func stdOpen(e *c14env, k *stdCase, srv *sim.SSHServer, khPath string, khNow khK
 	case k.khMode == 2:
 		opts = append(opts, options.WithSSHKnownHostsFileSystem())
 		r.resolve = fmt.Sprintf("c14 resolve system - 0 %s %s %s %s", b01(khPath != ""), b01(e.etcKH), hexs(homeKH), hexs("/etc/ssh/ssh_known_hosts"))
+	case k.khMode == 3:
+		// khPath is "<as given>\x00<as-given exists>\x00<under-home exists>" prepared by the caller
+		f := strings.Split(khPath, "\x00")
+		opts = append(opts, options.WithSSHKnownHostsFile(f[0]))
+		r.resolve = fmt.Sprintf("c14 resolvepath %s %s %s %s", hexs(f[0]), f[1], f[2], hexs(e.home))
 	case k.khMode == 1:
 		missing := filepath.Join(e.dir, "no-such-known-hosts")
 		opts = append(opts, options.WithSSHKnownHostsFile(missing))
@@ -1320,15 +1352,16 @@ func stdOpen(e *c14env, k *stdCase, srv *sim.SSHServer, khPath string, khNow khK
 		}
 		tr.Close(true)
 	}
-	khLoads := "1"
-	switch khNow {
-	case khMalformed:
-		khLoads = "0"
-	case khMissing:
-		khLoads = "missing"
-	}
 	port := srv.Port
 	r.leanWith = func(kh string) string {
+		khNow := r.khNow
+		khLoads := "1"
+		switch khNow {
+		case khMalformed:
+			khLoads = "0"
+		case khMissing:
+			khLoads = "missing"
+		}
 		return fmt.Sprintf("%s %d %s %s %d %s %s %s %s %s %s %s %s %s",
 			hexs(k.host), port, hexs(k.user), hexs(pw), int64(10*time.Second), b01(k.strict), hexs(keyPath), hexs(kh),
 			khLoads, b01(keyLoads), khNow.verdict(), b01(k.accKey), b01(k.accPw), map[bool]string{false: b01(k.accKbd), true: "multi"}[k.multi])
@@ -1355,6 +1388,12 @@ func askStd(c *ctx, runs []*stdRun) (std []string, newErrWant []string, inchan [
 		switch {
 		case len(f) == 2 && f[0] == "ok":
 			b, _ := vlib.UnHex(f[1])
+			if r.kindOf != nil {
+				// the file that takes effect is the one the model names
+				if kind, ok := r.kindOf[string(b)]; ok {
+					r.khNow = kind
+				}
+			}
 			r.lean = r.leanWith(string(b))
 			lines = append(lines, "c14 std "+r.lean)
 			idx = append(idx, i)
@@ -1617,6 +1656,57 @@ func evalStd(c *ctx, e *c14env, r *stdRun, model, newErrWant, inchan string) {
 	}
 }
 
+// oppositeKind is a known-hosts content whose verdict on the server's key is the other way round.
+func oppositeKind(k khKind, alt bool) khKind {
+	if k.verdict() == "match" {
+		if alt {
+			return khEmpty
+		}
+		return khMismatch
+	}
+	return khMatch
+}
+
+// decoyKH lays out the configured known-hosts path of a khMode 3 case: the name handed to the option
+// (absolute, relative to the working directory, or "~/…"), a file at that name as given and/or at the
+// same name re-rooted under $HOME, with opposite content. It returns the stdOpen descriptor
+// ("name\x00asGiven\x00underHome"), what each candidate path holds, and a cleanup.
+func (e *c14env) decoyKH(k *stdCase, srv *sim.SSHServer) (string, map[string]khKind, func()) {
+	e.seq++
+	var named string
+	switch k.khForm {
+	case 0:
+		named = filepath.Join(e.dir, fmt.Sprintf("decoy-%d", e.seq), "known_hosts")
+	case 1:
+		named = fmt.Sprintf("rel-%d/known_hosts", e.seq)
+	default:
+		named = fmt.Sprintf("~/tilde-%d/known_hosts", e.seq)
+	}
+	asGivenPath := named // relative names resolve against the working directory (a private one, see runC14)
+	homePath := e.home + "/" + strings.TrimPrefix(named, "~/")
+	kGiven, kHome := k.kh, oppositeKind(k.kh, e.seq%2 == 0)
+	if k.khSwap {
+		kGiven, kHome = kHome, kGiven
+	}
+	write := func(p string, kind khKind) {
+		os.MkdirAll(filepath.Dir(p), 0o700)
+		os.WriteFile(p, e.khBytes(kind, k.host, srv.Port, srv.HostKey.PublicKey()), 0o600)
+	}
+	hasGiven, hasHome := k.khWhere != 2, k.khWhere != 1
+	if hasGiven {
+		write(asGivenPath, kGiven)
+	}
+	if hasHome {
+		write(homePath, kHome)
+	}
+	kinds := map[string]khKind{named: kGiven, homePath: kHome}
+	cleanup := func() {
+		os.Remove(asGivenPath)
+		os.Remove(homePath)
+	}
+	return named + "\x00" + b01(hasGiven) + "\x00" + b01(hasHome), kinds, cleanup
+}
+
 func c14Std(c *ctx, e *c14env, cells []int, seeds []uint64) {
 	res := c.res
 	runs := make([]*stdRun, len(seeds))
@@ -1627,6 +1717,8 @@ func c14Std(c *ctx, e *c14env, cells []int, seeds []uint64) {
 		srv.Questions = k.nq
 		srv.KeyThenPassword = k.multi
 		var khPath string
+		var kindOf map[string]khKind
+		var cleanup func()
 		os.Remove(homeKH)
 		if k.khMode == 2 {
 			// the system variant: the content goes to ~/.ssh/known_hosts (no file there for "absent")
@@ -1634,10 +1726,16 @@ func c14Std(c *ctx, e *c14env, cells []int, seeds []uint64) {
 				os.WriteFile(homeKH, e.khBytes(k.kh, k.host, srv.Port, srv.HostKey.PublicKey()), 0o600)
 				khPath = homeKH
 			}
+		} else if k.khMode == 3 {
+			khPath, kindOf, cleanup = e.decoyKH(k, srv)
 		} else {
 			khPath = e.writeKH(k.kh, k.host, srv.Port, srv.HostKey.PublicKey())
 		}
 		r := stdOpen(e, k, srv, khPath, k.kh, nil)
+		r.kindOf = kindOf
+		if cleanup != nil {
+			cleanup()
+		}
 		r.line = fmt.Sprintf("std %d %d", cells[i], seed)
 		srv.Close()
 		r.o = observe(srv)
@@ -1649,7 +1747,10 @@ func c14Std(c *ctx, e *c14env, cells []int, seeds []uint64) {
 		res.Count("std")
 		res.Count(fmt.Sprintf("std strict=%v kh=%s", r.k.strict, khNames[r.k.kh]))
 		res.Count("std host=" + r.k.host)
-		res.Count(fmt.Sprintf("std known-hosts-option=%s", []string{"path", "missing-path", "system"}[r.k.khMode]))
+		res.Count(fmt.Sprintf("std known-hosts-option=%s", []string{"path", "missing-path", "system", "path-with-decoy"}[r.k.khMode]))
+		if r.k.khMode == 3 {
+			res.Count(fmt.Sprintf("std decoy form=%s where=%s", []string{"absolute", "relative", "tilde"}[r.k.khForm], []string{"both", "only-as-given", "only-under-home"}[r.k.khWhere]))
+		}
 		if r.k.drvOpen && !r.k.netconf {
 			res.Count("std via Driver.Open")
 		}
@@ -1851,6 +1952,15 @@ func c14Real(c *ctx, e *c14env, cells []int, seeds []uint64) {
 			os.WriteFile(homeKH, e.khBytes(k.kh, k.host, srv.Port, srv.HostKey.PublicKey()), 0o600)
 		} else {
 			khPath = e.writeKH(k.kh, k.host, srv.Port, srv.HostKey.PublicKey())
+			if k.khMode == 3 && khPath != "" {
+				// a same-named decoy under $HOME with the opposite content: the configured file exists as given, so
+				// it is the one in effect (resolve_path_as_given_first)
+				decoy := e.home + "/" + khPath
+				os.MkdirAll(filepath.Dir(decoy), 0o700)
+				os.WriteFile(decoy, e.khBytes(oppositeKind(k.kh, false), k.host, srv.Port, srv.HostKey.PublicKey()), 0o600)
+				defer os.Remove(decoy)
+				res.Count("real known-hosts decoy under $HOME")
+			}
 		}
 		keyPath, _ := k.keyPath(e)
 		opts := []util.Option{options.WithPort(srv.Port), options.WithTimeoutSocket(10 * time.Second),
@@ -2050,6 +2160,16 @@ func runC14(c *ctx) {
 	}
 	e := newC14Env(c)
 	defer os.RemoveAll(e.dir)
+	// a private working directory: relative file names (and literal "~" directories) are created in it
+	c.driver, _ = filepath.Abs(c.driver)
+	if c.out != "" {
+		c.out, _ = filepath.Abs(c.out)
+	}
+	if wd, err := os.Getwd(); err == nil {
+		defer os.Chdir(wd)
+	}
+	os.MkdirAll(filepath.Join(e.dir, "cwd"), 0o700)
+	os.Chdir(filepath.Join(e.dir, "cwd"))
 	// the default: NewSSHArgs() without options (implementation) vs newSSHArgs (model, from the generated constant)
 	if sa, err := transport.NewSSHArgs(); err != nil || !sa.StrictKey {
 		res.Fail("oracle", "default", fmt.Sprintf("transport.NewSSHArgs() without options: strict host-key checking is not on (StrictKey=%v err=%v)", sa != nil && sa.StrictKey, err), "c14-default-not-strict")
